@@ -32,7 +32,10 @@ impl<P> ReadLatch<P> {
             Arc::as_ptr(lock) as usize,
             || !lock.is_locked_exclusive(),
         );
-        Self(lock.read_arc())
+        // A thread may latch a page it already holds for reading (a scan keeps its current leaf
+        // latched and reads each row through a fresh accessor). A plain read would queue behind a
+        // writer that is waiting for that very latch, and neither would ever move again.
+        Self(lock.read_arc_recursive())
     }
 }
 
@@ -175,7 +178,7 @@ where
             Arc::as_ptr(&self.inner) as usize,
             || !self.inner.is_locked_exclusive(),
         );
-        let latch = self.inner.read();
+        let latch = self.inner.read_recursive();
         f(latch.as_ref())
     }
 }
